@@ -326,6 +326,113 @@ def override_then_create(ctx, L):
                 ctx.violation("override:valid-use-of-the-re-registered-category-fails", {"got": ok})
 
 
+def exponent_twins(ctx, L):
+    """Derived amounts that differ in nothing but one exponent - 1/s and 1/s2, m/s and m/s2, m2 and m3 (CPython hashes -1 and
+    -2 alike) - are amounts of different dimensions: + - and the orderings are refused for Scalars, list and ndarray Arrays and
+    at the database level, and the quantities are unequal."""
+    import numpy as np
+    from barril.units import Array, Scalar, UnitDatabase
+
+    def build(cls, parts):
+        acc = None
+        for u, e in parts:
+            for _ in range(abs(e)):
+                f = Scalar(2.0, u) if cls == "Scalar" else Array([2.0, 4.0] if cls == "Array[list]" else np.array([2.0, 4.0]), u)
+                if acc is None:
+                    acc = f if e > 0 else 1.0 / f
+                else:
+                    acc = acc * f if e > 0 else acc / f
+        return acc
+
+    TWINS = [([("s", -1)], [("s", -2)]), ([("m", 1), ("s", -1)], [("m", 1), ("s", -2)]), ([("m", 2)], [("m", 3)]), ([("kg", 1), ("m", -1)], [("kg", 1), ("m", -2)]), ([("s", -2)], [("s", -3)]),
+             ([("m", -1), ("s", -1)], [("m", -2), ("s", -2)]), ([("m", 1)], [("m", 2)]), ([("K", -1)], [("K", -2)])]  # fmt: skip
+    db = UnitDatabase.GetSingleton()
+    for pa, pb in TWINS:
+        for cls in ("Scalar", "Array[list]", "Array[nd]"):
+            try:
+                a, b = build(cls, pa), build(cls, pb)
+            except Exception as e:
+                ctx.inconclusive.append("exponent twins could not be built: %s" % repr(e)[:120])
+                continue
+            case = {"a": pa, "b": pb, "class": cls}
+            ctx.nt(("exponent twins", str(pa), str(pb), cls))
+            for nme, op in ADDSUB:
+                L.must_raise("exponent twins %s: a %s b" % (cls, nme), lambda: op(a, b), case, (a, b))
+                L.must_raise("exponent twins %s: b %s a" % (cls, nme), lambda: op(b, a), case, (a, b))
+            if cls == "Scalar":
+                for nme, op in ORDER:
+                    L.must_raise("exponent twins Scalar: a %s b" % nme, lambda: op(a, b), case, (a, b))
+                qa, qb = a.GetQuantity(), b.GetQuantity()
+                L.must_raise("exponent twins: UnitDatabase.Sum", lambda: db.Sum(qa, qb, 1.0, 2.0), case)
+                L.must_raise("exponent twins: UnitDatabase.Subtract", lambda: db.Subtract(qb, qa, 1.0, 2.0), case)
+                ctx.ev()
+                if qa == qb or not (qa != qb) or a == b:
+                    ctx.violation("returned:exponent twins compare equal", dict(case, quantities=[repr(qa), repr(qb)]))
+
+
+def refusal_then_registration(ctx):
+    """'Leaves no trace': two private databases go through the same valid history - a category, later the unit, then the
+    creations in that unit. On one of them the creations are also attempted (and refused) *before* the unit exists, or
+    before the category exists; afterwards both must answer alike, and the now-valid creations must succeed."""
+    from barril.units import Array, ObtainQuantity, Scalar, UnitDatabase
+
+    def make():
+        db = UnitDatabase()
+        UnitDatabase.FillSimple(db)  # length: m, mm, cm, km / time: s, min, h, d
+        db.AddCategory("pipe length", "length")
+        if "length" not in db.categories_to_quantity_types:
+            db.AddCategory("length", "length")
+        return db
+
+    attempts = [
+        ("Scalar(c,x,u)", lambda c: Scalar(c, 1.0, "furlong").GetValue("m")), ("Scalar(x,u,c)", lambda c: Scalar(1.0, "furlong", c).GetValue("m")), ("ObtainQuantity(u,c)", lambda c: ObtainQuantity("furlong", c).GetUnit()),
+        ("Array(c,values,u)", lambda c: list(Array(c, [1.0, 2.0], "furlong").GetValues("m"))), ("Scalar.GetValue(u)", lambda c: Scalar(c, 201.168, "m").GetValue("furlong")),
+        ("Scalar.CreateCopy(unit=u)", lambda c: Scalar(c, 201.168, "m").CreateCopy(unit="furlong").GetValue()), ("CheckCategoryUnit", lambda c: UnitDatabase.GetSingleton().CheckCategoryUnit(c, "furlong")),
+        ("Scalar(c,unit=u)", lambda c: Scalar(c, unit="furlong").GetUnit()), ("UnitDatabase.Convert(c,u,v,x)", lambda c: UnitDatabase.GetSingleton().Convert(c, "furlong", "m", 1.0)),
+        ("ObtainQuantity(dict)", lambda c: ObtainQuantity(OrderedDict([(c, ["furlong", 2])])).GetUnit()),
+    ]  # fmt: skip
+
+    def outcomes(db, cats):
+        out = {}
+        for c in cats:
+            for name, fn in attempts:
+                try:
+                    out[(c, name)] = ("ok", repr(fn(c)))
+                except Exception as e:
+                    out[(c, name)] = ("exc", type(e).__name__)
+        return out
+
+    for scenario in ("unit registered later", "category registered later", "unit and category registered later"):
+        cats = ["pipe length", "length"] + (["bore"] if "category" in scenario else [])
+        res = {}
+        for refused_first in (True, False):
+            db = make()
+            with table.pushed(db):
+                if refused_first:
+                    early = outcomes(db, cats)
+                    for key, o in early.items():
+                        ctx.ev()
+                        if o[0] == "ok" and "unit" in scenario:
+                            ctx.violation("returned:creation in a unit that is not registered yet:%s" % key[1], {"scenario": scenario, "category": key[0], "returned": o[1]})
+                if "unit" in scenario:
+                    db.AddUnit("length", "furlongs", "furlong", "%f / 201.168", "%f * 201.168")
+                else:
+                    # the unit exists from the start in this scenario; only the category comes later
+                    pass
+                if "category" in scenario:
+                    db.AddCategory("bore", "length")
+                if scenario == "category registered later" and "furlong" not in db.unit_to_unit_info:
+                    db.AddUnit("length", "furlongs", "furlong", "%f / 201.168", "%f * 201.168")
+                res[refused_first] = outcomes(db, cats)
+        for key in res[True]:
+            ctx.ev()
+            ctx.nt(("refusal then registration", scenario, key))
+            if res[True][key] != res[False][key]:
+                ctx.violation("valid-operation-differs-after-a-refused-one:%s" % key[1], {"scenario": scenario, "category": key[0], "after_refusals": res[True][key], "without_refusals": res[False][key]})
+            elif res[False][key][0] == "ok":
+                ctx.count("operations valid after a later registration, same with and without earlier refusals")
+
+
 # --------------------------------------------------------------------------------- differential
 POOL_UNITS = {"length": ["m", "cm", "km"], "time": ["s", "min"], "mass": ["kg", "g"], "temperature": ["degC", "K"]}
 POOL_CATS = {"length": ["length", "depth"], "time": ["time"], "mass": ["mass"], "temperature": ["temperature"]}
@@ -507,8 +614,10 @@ def run(ctx):
         if ctx.shard == 0:
             mixed_unit_operands(ctx, L)
             unit_text_lookalikes(ctx, L, db)
+            exponent_twins(ctx, L)
     if ctx.shard == 0:
         override_then_create(ctx, L)
+        refusal_then_registration(ctx)
     differential(ctx, r, 25 if ctx.tier == "quick" else 400, 70)
     ctx.notes["entry_points"] = L.entries
     ctx.inconclusive_if(len(L.entries) < 40, "only %d entry points exercised" % len(L.entries))
